@@ -65,6 +65,9 @@ func isZeroNode(v reflect.Value) bool {
 
 func reachable(root interface{}) map[string]int {
 	m := map[string]int{}
+	// a derived table referenced from From and from the first join's Left is one node of the tree
+	reflectx.Descend = reflectx.SharedDerivedTableOnce
+	defer func() { reflectx.Descend = nil }()
 	reflectx.Reachable(reflect.ValueOf(root), func(v reflect.Value) {
 		if !isZeroNode(v) {
 			m[key(v)]++
